@@ -8,6 +8,7 @@ CONSTANTS
   Alphabet <- DqAlphabet
   MaxLen = 4
   Prefix <- cMbPrefix
+  Suffix <- cNoPrefix
   PatternKw <- cPattern
 INIT Init
 NEXT Next
